@@ -393,7 +393,7 @@ func verifC01(c *drv.Ctx) {
 	c.R.Rule = "end-to-end runs of the real CLI (12 commands: arp, icmp, tcp, tcp syn/fin/null/xmas/--flags, udp, socks, docker, elastic) on the virtual wire; target specifications = " +
 		"every prefix /32../26 x {aligned, unaligned, all-ones} base, 8 port-list shapes x {flag, ports-file, both}, chunk boundaries 199/200/201(/400/401) port ranges, 5 exclusion lists, " +
 		"files of 0-3 ip/port pairs or addresses (regular file and stdin) x 3 port lists, VPN link mode, NumCPU 1-3, application scans with 1/2/3/1000 workers, 3 random-source variants (thorough adds /24, /20, /16); " +
-		"oracle: multiset of (dst address[, dst port]) decoded from the wire log = nested-loop reference minus exclusions; distinct = specification, non-trivial = expected multiset non-empty"
+		"oracle: multiset of (dst address[, dst port]) decoded from the wire log = nested-loop reference minus exclusions; then a 2x2 instance of 4 commands (thorough: all 12) under EVERY schedule with at most 1 deviation (thorough: 2 for four of them), same oracle; distinct = specification, non-trivial = expected multiset non-empty"
 	idx := 0
 	c01specs(c.Thorough(), func(s c01spec) {
 		idx++
@@ -444,5 +444,60 @@ func verifC01(c *drv.Ctx) {
 		}
 	})
 	c.Set("specs", idx)
-	_ = vs.Steps
+	// schedules: a 2-address x 2-port instance (2 addresses for arp/icmp) of every command under every schedule with
+	// at most one deviation (thorough: two for the first four commands): coverage must not depend on the schedule
+	for ci, cmd := range c01cmds {
+		if c.Expired() {
+			break
+		}
+		if !c.Thorough() && !(cmd.name == "arp" || cmd.name == "tcp-syn" || cmd.name == "udp" || cmd.name == "elastic") {
+			continue
+		}
+		s := c01spec{cmd: cmd, subnet: "10.0.1.8/31", mode: "subnet", portsVia: "flag", ncpu: 2}
+		if cmd.ports {
+			s.ports = "80-81"
+		}
+		if cmd.kind == "app" {
+			s.workers = 2
+		}
+		bound := 1
+		if c.Thorough() && ci < 4 {
+			bound = 2
+		}
+		want := c01expect(s)
+		sc := c01build(s)
+		res, cfg, main := vE2E(sc)
+		check := func(x *vs.Exec) (string, error) {
+			if out, err := vBasic(x); err != nil {
+				return out, err
+			}
+			if res.Err != "" {
+				return "refused", fmt.Errorf("command failed: %s", res.Err)
+			}
+			got, bad := c01observe(s, res)
+			if bad != "" {
+				return "malformed", fmt.Errorf("%s", bad)
+			}
+			if d := zzref.RefMultisetDiff(got, want); d != "" {
+				return "wrong-targets", fmt.Errorf("probes on the wire differ from the specification: %s", d)
+			}
+			if errs := res.vErrRecords(); len(errs) > 0 {
+				return "spurious-error", fmt.Errorf("error records %v", errs)
+			}
+			var order []string
+			for _, f := range res.Frames {
+				order = append(order, fmt.Sprint(f.Thread))
+			}
+			return strings.Join(order, ">"), nil
+		}
+		r := vs.Explore(vs.Options{Bound: bound, Iterate: true, Deadline: c.Deadline, Shard: c.Shard, NShard: c.NShard}, cfg, main, check)
+		name := fmt.Sprintf("schedules: %s bound=%d", s, bound)
+		c.Explore(name, r, func(v vs.Violation) string {
+			return fmt.Sprintf("coverage:schedule:%s:%s", cmd.name, strings.SplitN(v.Msg, ":", 2)[0])
+		})
+		c.Nontrivial(1)
+		if c.Shard == 0 {
+			c.Note("%s: %d executions on shard 0, bound completed %d", name, r.Execs, r.BoundCompleted)
+		}
+	}
 }
